@@ -612,6 +612,8 @@ func lockReleaseAudit(c *Ctx, rule string, rels []string) int {
 			})
 		}
 	}
+	// … and no method takes its receiver's mutex again while it holds it (REACQ, reacq.go)
+	n += reacquireAudit(c, rule, rels)
 	return n
 }
 
